@@ -47,6 +47,12 @@ def main():
         except Exception as e:
             out["diffs"].append({"code": co.co_name, "what": "raises", "detail": "%s: %s" % (type(e).__name__, str(e)[:120])})
             continue
+        try:
+            p2 = codeType2Portable(co, sys.version_info[:2])     # the version as a pair, as callers that pass it often do
+            if type(p2) is not type(p):
+                out["diffs"].append({"code": co.co_name, "what": "portable type by version pair", "detail": "codeType2Portable(co) is a %s, codeType2Portable(co, %r) a %s" % (type(p).__name__, sys.version_info[:2], type(p2).__name__)})
+        except Exception as e:
+            out["diffs"].append({"code": co.co_name, "what": "raises with a version pair", "detail": "%s: %s" % (type(e).__name__, str(e)[:120])})
         after = snapshot(co)
         if after != before:
             out["diffs"].append({"code": co.co_name, "what": "original changed", "detail": str([k for k in before if before[k] != after[k]])})
